@@ -25,6 +25,7 @@ Pats == { UCat(ULit(SA), UCat(LF1, ULit(SB))),                    \* a\nb
           UCat(ULit(SA), UCat(URep(UCls({SA}, TRUE), 0, Inf, FALSE), ULit(SB))),  \* a[^a]*?b  crosses lines
           UCat(ULit(SB), UCat(URep(LF1, 1, Inf, TRUE), ULit(SA))),  \* b\n+a
           UCat(UWCls(TRUE), ULit(SA)),                              \* \Wa  (\W matches \n)
+          UCat(ULit(SA), UCat(LF1, ULook("wb"))),                   \* a\n\b   (assertion looking at the next line's first byte)
           ULit(SA), UCat(ULit(SA), ULit(SB)) }
 
 Opt(ci, word, line, crlf) == [ci |-> ci, smart |-> FALSE, word |-> word, line |-> line, crlf |-> crlf, nul |-> FALSE, inv |-> FALSE, dotall |-> FALSE]
@@ -48,5 +49,8 @@ Next == Pick
 Spec == Init /\ [][Next]_vars
 
 Emitted == pc = "done" => PrintT(<<"EMIT", ToJson([scn |-> scn, ref |-> Exp(scn)])>>)
+\* C09 (multi-line coordinates): additionally the successive matches themselves
+MatchesOfScn(sc) == MLMatches(MLSem(sc.u, sc.o), sc.inp, 0, NGroups(sc.u, sc.o), MLEnv(sc.o))
+EmittedWithMatches == pc = "done" => PrintT(<<"EMIT", ToJson([scn |-> scn, ref |-> Exp(scn), ms |-> MatchesOfScn(scn)])>>)
 MCWordSyms == {1, 2, 3, 4, 5, 6, 10, 11}
 =============================================================================
